@@ -479,6 +479,10 @@ class ParseStaticRoute(Section):
         # Use Any to access dynamically since the actual type depends on AFI/SAFI
         nlri: Any = last.nlri
 
+        # "attributes ... split /n nlri" without any prefix: there is nothing to split
+        if not hasattr(nlri, 'cidr'):
+            raise ValueError('split requires a prefix\n  "split" can only be used on a route with an IP prefix')
+
         # ignore if the request is for an aggregate, or the same size
         mask = nlri.cidr.mask
         # INTERNAL_SPLIT stores a Split(int) subclass - cast to int for type safety
